@@ -80,6 +80,10 @@ class Contract:
         """{ExcName: condition}: ExcName may be raised only when condition holds (one direction)."""
         return {}
 
+    def axioms(self, eng):
+        """Definitions of spec functions this contract uses (added as facts)."""
+        return []
+
     def yields(self, c0, a, v):
         """For generators: membership predicate of value v (Val term) in the result; None if not a generator."""
         return None
@@ -120,9 +124,18 @@ class Contract:
                 env[n] = eng.eval_default(defaults[n], fi, st)
         # give static classes from param specs
         for n, spec in (self.params or {}).items():
-            if n in env and isinstance(spec, str) and spec.startswith(("ref:", "optref:")) and env[n].k in ("ref", "val") \
-                    and env[n].cls is None:
+            if n not in env or not isinstance(spec, str):
+                continue
+            if spec.startswith("ref:") and env[n].k in ("ref", "val"):
+                cls = env[n].cls or spec.split(":", 1)[1]
+                env[n] = SV("ref", eng.as_ref(env[n], st, "argument %s of %s" % (n, self.short())), cls=cls, x=env[n].x)
+            elif spec.startswith("optref:") and env[n].k in ("ref", "val") and env[n].cls is None:
                 env[n] = SV(env[n].k, env[n].t, cls=spec.split(":", 1)[1])
+            elif spec == "int" and env[n].k != "int":
+                env[n] = sv_int(eng.as_int(env[n], st, "argument %s of %s" % (n, self.short())))
+        if "self" in env and env["self"].k == "val":
+            env["self"] = SV("ref", eng.as_ref(env["self"], st, "receiver of %s" % self.short()), cls=env["self"].cls,
+                             x=env["self"].x)
         return env
 
     def apply(self, eng, args, kwargs, st):
@@ -188,7 +201,7 @@ class Contract:
         st = State()
         st.obls = obls
         st.entry_mark = 0
-        st.facts = list(eng.schema.axioms)
+        st.facts = list(eng.schema.axioms) + list(self.axioms(eng))
         names, vararg, kwonly = fi.params()
         a = Args()
         specs = dict(self.params or {})
@@ -215,6 +228,8 @@ class Contract:
         eng.cur_fn = fi
         eng.cur_target = self.target + (("[" + self.variant + "]") if getattr(self, "variant", None) else "")
         eng.cur_contract = self
+        eng.cur_c0 = c0
+        eng.cur_args = a
         eng.loop_counter = 0
         eng.exc_paths = []
         eng.inline_depth = 0
@@ -249,6 +264,17 @@ class Contract:
                     obls.append(Obligation("onraise.%s/%s" % (name, tag), s.assumptions(), f, info={"path": s.trace}))
                 continue
             res = ctrl[1] if ctrl else sv_none()
+            if isinstance(self.result, str) and self.result.startswith("ref:") and res.k in ("val", "none"):
+                obls.append(Obligation("post.result_is_object/%s" % tag, s.assumptions(),
+                                       is_VRef(to_val(res)), info={"path": s.trace}))
+                res = SV("ref", ref(to_val(res)), cls=self.result[4:])
+            elif self.result == "int" and res.k != "int":
+                res = sv_int(eng.as_int(res, s, "result"))
+            elif self.result == "bool" and res.k != "bool":
+                if res.k == "val":
+                    obls.append(Obligation("post.result_is_bool/%s" % tag, s.assumptions(), is_VBool(res.t),
+                                           info={"path": s.trace}))
+                    res = sv_bool(bval(res.t))
             # "must raise" direction: on a normal path none of the exact-raise conditions holds
             for en, cond in exc_spec.items():
                 obls.append(Obligation("raises.%s.required/%s" % (en, tag), s.assumptions(), z3.Not(cond),
@@ -483,3 +509,143 @@ class Registry:
         if fi.kind in ("getter", "lambda", "nested"):
             return True
         return False
+
+
+class LoopCtx:
+    """What a loop invariant may talk about."""
+
+    def __init__(self, eng, st, c_entry, k=None, seen=None, elems=None, seq=None):
+        self.eng = eng
+        self.c0 = eng.cur_c0            # heap at function entry
+        self.a = eng.cur_args           # function arguments
+        self.cL = c_entry               # heap at loop entry
+        self.c = Ctx(eng, dict(st.heap))  # current heap
+        self.env = st.env               # current locals
+        self.k = k                      # number of completed iterations (ordered iteration)
+        self.seen = seen                # set of elements already processed (set iteration)
+        self.elems = elems              # the iterated set (SetSort) / None
+        self.seq = seq                  # the iterated sequence (Seq(Val)) / None
+
+
+class LoopSpec:
+    """Sidecar loop invariant, keyed by (function target, loop ordinal).
+
+    inv(L: LoopCtx) -> {name: formula};  modifies: heap keys the body may change;
+    carried: {local name: kind-spec} for locals that live across iterations.
+    lemmas(L) -> [formula]: hint lemmas; each is itself proved as an obligation before it is assumed."""
+
+    def __init__(self, inv, modifies=(), carried=None, lemmas=None):
+        self.inv = inv
+        self.modifies = modifies
+        self.carried = carried or {}
+        self.lemmas = lemmas
+
+    def _havoc(self, eng, st):
+        for key in self.modifies:
+            for sub in eng_subkeys(eng, key):
+                old = eng.field_array(st, sub)
+                st.heap[sub] = fresh("HL_" + sub.replace("#", "_").replace("$", "S").replace(".", "_"), old.sort())
+        for name, spec in self.carried.items():
+            st.env[name] = make_symbolic(eng, st, name, spec)
+
+    def _assert_inv(self, eng, st, L, label):
+        for name, f in self.inv(L).items():
+            st.oblige("loop%s.%s" % (label, name), f)
+
+    def _assume_inv(self, eng, st, L):
+        for name, f in self.inv(L).items():
+            st.assume(f)
+
+    def run(self, eng, node, it, st, ordinal):
+        import z3 as _z3
+        cL = Ctx(eng, dict(st.heap))
+        outs = []
+        if it.k == "seq":
+            es = it.t
+            n = _z3.Length(es)
+            self._assert_inv(eng, st, LoopCtx(eng, st, cL, k=_z3.IntVal(0), seq=es), "%d.init" % ordinal)
+            self._havoc(eng, st)
+            # iteration
+            s = st.fork()
+            k = fresh("k", Int)
+            s.assume(_z3.And(0 <= k, k < n))
+            self._assume_inv(eng, s, LoopCtx(eng, s, cL, k=k, seq=es))
+            # sequence lemma (theory of sequences; proved as an obligation, then used as a fact)
+            lem = _z3.Extract(es, 0, k + 1) == _z3.Concat(_z3.Extract(es, 0, k), _z3.Unit(es[k]))
+            s.oblige("loop%d.lemma.prefix_step" % ordinal, lem)
+            s.assume(lem)
+            if self.lemmas:
+                for f in self.lemmas(LoopCtx(eng, s, cL, k=k, seq=es)):
+                    s.assume(f)
+            eng.assign(node.target, eng.schema.refine(SV("val", es[k])), s)
+            for (s2, ctrl) in eng.exec_stmts(node.body, s):
+                if ctrl is not None and ctrl[0] == "raise":
+                    outs.append((s2, ctrl))
+                    continue
+                if ctrl is not None and ctrl[0] in ("return", "break"):
+                    raise Unsupported("return/break in invariant loop")
+                it2 = eng.eval(node.iter, s2)
+                s2.oblige("loop%d.iterable_unchanged" % ordinal, it2.t == es)
+                self._assert_inv(eng, s2, LoopCtx(eng, s2, cL, k=k + 1, seq=es), "%d.step" % ordinal)
+            # exit
+            self._assume_inv(eng, st, LoopCtx(eng, st, cL, k=n, seq=es))
+            st.assume(_z3.Extract(es, 0, n) == es)
+            if self.lemmas:
+                for f in self.lemmas(LoopCtx(eng, st, cL, k=n, seq=es)):
+                    st.assume(f)
+            for name in _target_names(node.target):
+                st.env[name] = SV("poison", x="loop variable %s" % name)
+            return [(st, None)] + outs
+        # set-like iteration (order arbitrary): single bag with one binder
+        bags = eng.bags_of(it, st)
+        if len(bags) != 1 or len(bags[0].binders) != 1:
+            raise Unsupported("invariant loop over a non-simple collection")
+        b = bags[0]
+        x0 = b.binders[0]
+
+        def member(t):
+            return _z3.substitute(b.cond, (x0, t))
+
+        def elem(t):
+            from .core import subst_sv
+            return subst_sv(b.elem, [(x0, t)])
+        elems = fresh("elems", SetSort)
+        y = fresh("y", x0.sort())
+        if x0.sort() != Val:
+            raise Unsupported("invariant loop binder sort")
+        st.assume(_z3.ForAll([y], _z3.Select(elems, y) == member(y)))
+        self._assert_inv(eng, st, LoopCtx(eng, st, cL, seen=EmptySet, elems=elems), "%d.init" % ordinal)
+        self._havoc(eng, st)
+        seen = fresh("seen", SetSort)
+        st.assume(_z3.ForAll([y], _z3.Implies(_z3.Select(seen, y), _z3.Select(elems, y))))
+        s = st.fork()
+        x = fresh("x", Val)
+        s.assume(_z3.And(_z3.Select(elems, x), _z3.Not(_z3.Select(seen, x))))
+        self._assume_inv(eng, s, LoopCtx(eng, s, cL, seen=seen, elems=elems))
+        eng.assign(node.target, elem(x), s)
+        for (s2, ctrl) in eng.exec_stmts(node.body, s):
+            if ctrl is not None and ctrl[0] == "raise":
+                outs.append((s2, ctrl))
+                continue
+            if ctrl is not None and ctrl[0] in ("return", "break"):
+                raise Unsupported("return/break in invariant loop")
+            it2 = eng.eval(node.iter, s2)
+            b2 = eng.bags_of(it2, s2)[0]
+            y2 = fresh("y", Val)
+            s2.oblige("loop%d.iterable_unchanged" % ordinal,
+                      _z3.ForAll([y2], _z3.substitute(b2.cond, (b2.binders[0], y2)) == _z3.Select(elems, y2)))
+            self._assert_inv(eng, s2, LoopCtx(eng, s2, cL, seen=_z3.Store(seen, x, True), elems=elems),
+                             "%d.step" % ordinal)
+        self._assume_inv(eng, st, LoopCtx(eng, st, cL, seen=seen, elems=elems))
+        st.assume(seen == elems)
+        for name in _target_names(node.target):
+            st.env[name] = SV("poison", x="loop variable %s" % name)
+        return [(st, None)] + outs
+
+    def run_while(self, eng, node, st, ordinal):
+        raise Unsupported("while loops")
+
+
+def _target_names(t):
+    import ast as _ast
+    return {m.id for m in _ast.walk(t) if isinstance(m, _ast.Name)}
